@@ -64,7 +64,10 @@ fn close_layer(m: &mut ThreadMon) {
     if !C13_ENABLED.load(Ordering::Relaxed) { m.expansions_in_layer = 0; return; }
     if let Some(w) = m.width {
         let rel = m.cur_depth.saturating_sub(m.root_depth);
-        let ctype = m.explicit_type.unwrap_or(if m.compile_no <= 1 { 2 } else { 1 });
+        // solver runs do not tell which kind of compilation is under way (and the order restricted-then-relaxed is an
+        // implementation choice, not part of C13): only the bound common to both kinds is evaluated there; the
+        // restricted-only clause (the layer right below the root) is evaluated by the dd-history arms, which know the kind
+        let ctype = m.explicit_type.unwrap_or(1);
         let bounded = match ctype { 2 => true, 1 => rel >= 2, _ => false };
         if bounded {
             LAYERS_CHECKED.fetch_add(1, Ordering::Relaxed);
@@ -72,7 +75,7 @@ fn close_layer(m: &mut ThreadMon) {
             MAX_EXPANSIONS_SEEN.fetch_max(n, Ordering::Relaxed);
             if n > w {
                 report_violation("C13", format!("{} states expanded in one layer (depth {}, {} layers below the root) of a {} compilation with max_width {}",
-                    n, m.cur_depth, rel, if ctype == 2 { "restricted" } else { "relaxed" }, w));
+                    n, m.cur_depth, rel, if m.explicit_type.is_none() { "restricted or relaxed" } else if ctype == 2 { "restricted" } else { "relaxed" }, w));
             }
         }
     }
